@@ -308,10 +308,10 @@ def h_ansistr(ti: int, ai: int, bi: int, k: int):
 
 
 BOUNDS = {
-    'quick': 'AnsiString: base text = any string (all Unicode code points, no ESC) of length <=4, arguments any strings of '
+    'quick': 'AnsiString: base text = any string (all Unicode code points, no ESC) of length <=5, arguments any strings of '
              'length <=2, integer arguments (start/end/count) ALL integers / None, maxsplit -2..n+1; predicates + case mappings: texts of <=2 characters '
              'from a 16-character class palette; widths -1..n+4 with any fill character; AnsiStr: 12 texts x 7x7 arguments x 6 integers',
-    'thorough': 'texts up to length 5, palette texts of 3 characters',
+    'thorough': 'texts up to length 6, palette texts of 3 characters',
 }
 OUTSIDE = ('longer texts/arguments; empty separators (excluded by the statement); Unicode classes beyond the palette for predicates and case '
            'mappings (CPython C code realises the characters); widths beyond n+4')
@@ -323,7 +323,7 @@ def obligations(tier):
     q = tier == 'quick'
     obs = [selftest_ob()]
     for m in range(len(QUERY)):
-        for n in (0, 1, 2, 3, 4) if q else (0, 1, 2, 3, 4, 5):
+        for n in (0, 1, 2, 3, 4, 5) if q else (0, 1, 2, 3, 4, 5, 6):
             obs.append(Ob('query/%s/n%d' % (QUERY[m], n), h_query, dict(n=n, m=m), need=('found',) if n else (), budget=900,
                           per_path=40, bounds='text length %d, sub <=2, start/end all integers/None' % n, kinds=KINDS))
     for n in (0, 1, 2, 3):
@@ -344,18 +344,18 @@ def obligations(tier):
             obs.append(Ob('expandtabs/n%d/c%d' % (n, cls), h_expandtabs, dict(n=n, **z, **({'p3': 0} if n < 3 else {}), **({'p2': 0} if n < 2 else {})),
                           need=('tab',), budget=300, bounds='%d chars over tab/a/space, tabsize 0..3' % n, kinds=KINDS))
     for m in range(3):
-        for n in (0, 1, 2, 3, 4) if q else (0, 1, 2, 3, 4, 5):
+        for n in (0, 1, 2, 3, 4, 5) if q else (0, 1, 2, 3, 4, 5, 6):
             obs.append(Ob('strip/m%d/n%d' % (m, n), h_strip, dict(n=n, m=m), need=('default-set',) + (('stripped',) if n else ()), budget=900,
                           bounds='length %d, chars None or <=2' % n, kinds=KINDS))
     for m in range(2):
-        for n in (0, 1, 2, 3, 4) if q else (0, 1, 2, 3, 4, 5):
+        for n in (0, 1, 2, 3, 4, 5) if q else (0, 1, 2, 3, 4, 5, 6):
             obs.append(Ob('affix/m%d/n%d' % (m, n), h_affix, dict(n=n, m=m), need=('empty-affix',) + (('removed',) if n else ()), budget=600,
                           bounds='length %d, affix <=2' % n, kinds=KINDS))
-    for n in (0, 1, 2, 3, 4) if q else (0, 1, 2, 3, 4, 5):
+    for n in (0, 1, 2, 3, 4, 5) if q else (0, 1, 2, 3, 4, 5, 6):
         obs.append(Ob('replace/n%d' % n, h_replace, dict(n=n), need=('empty-old', 'count-0') + (('replaced',) if n else ()), budget=1200,
                       per_path=40, bounds='length %d, old/new <=2, count all integers' % n, kinds=KINDS))
     for m in range(2):
-        for n in (0, 1, 2, 3, 4) if q else (0, 1, 2, 3, 4, 5):
+        for n in (0, 1, 2, 3, 4, 5) if q else (0, 1, 2, 3, 4, 5, 6):
             obs.append(Ob('split/m%d/n%d' % (m, n), h_split, dict(n=n, m=m), need=('whitespace-split',) + (('split-happened',) if n > 1 else ()),
                           budget=1200, per_path=40, bounds='length %d, sep None or 1..2 chars, maxsplit -2..n+1' % n, kinds=KINDS))
             obs.append(Ob('partition/m%d/n%d' % (m, n), h_partition, dict(n=n, m=m), need=('partitioned',) if n else (), budget=600,
